@@ -1,6 +1,6 @@
 CFG = {
     "level": "proof",
-    "level_text": "Lean theorems prove, with hash-map iteration order as an arbitrary input of the model, that fields_ex/len (fieldsEx_perm_invariant, objLen_perm_invariant), the did-you-mean rankings for fields and locals (suggestFields_/suggestLocals_perm_invariant) and the choice of the error reported by apply_tla (applyTla_perm_invariant) are the same for every order, and that the thread-local depth counter is restored by every evaluation so the stack limit is met at the same place after any history (stack_history_independent). The model is tied to the code by a differential run of the real evaluator (layer vectors via the verif_core_shape hook, real jaro_winkler scores, real apply_tla) under shuffled interning; everything outside the modelled functions is covered only by observation: every generated program replayed 8x in fresh processes (ASLR) and after randomised histories / pre-interned pools on fresh threads and on one long-lived state, byte-identical output or error text required.",
+    "level_text": "Lean theorems prove, with hash-map iteration order as an arbitrary input of the model, that fields_ex/len (fieldsEx_perm_invariant, objLen_perm_invariant), the did-you-mean rankings for fields and locals (suggestFields_/suggestLocals_perm_invariant) and the choice of the error reported by apply_tla (applyTla_perm_invariant) are the same for every order, and that the thread-local depth counter is restored by every evaluation so the stack limit is met at the same place after any history (stack_history_independent). The model is tied to the code by a differential run of the real evaluator (layer vectors via the verif_core_shape hook, real jaro_winkler scores, real apply_tla) under shuffled interning; everything outside the modelled functions is covered only by observation: every generated program replayed 8x in fresh processes (ASLR) and after randomised histories / pre-interned pools on fresh threads and on one long-lived state, byte-identical output or error text required; programs whose ERROR TEXT is assembled from hash-map iteration (undefined local below nested scopes that shadow names, unknown field / std function / named argument, argument-count messages, field listings inside messages) are replayed 14x in fresh processes and under 12 further interning histories each.",
     "level_note": "Partial: the theorems cover the modelled sources of order dependence (obj fields_visibility/fields_ex, Context::binding, suggest_object_fields, apply_tla, stack depth counter). Hash use in unmodelled code, address-space layout, allocator behaviour and the remaining thread-local state (RUNNING_ASSERTIONS, FileData.evaluating, STATE) are covered by the repeated/varied runs only. One known finding: values of imported files cached by a long-lived State keep memoized results (incl. StackOverflow and error traces).",
     "technique": "Lean 4 proof of permutation invariance (sorting of permuted inputs, per-key decomposition of a map fold) + differential correspondence + repeated-run observation",
     "engines": ["c16", "c16cli"],
@@ -10,7 +10,8 @@ CFG = {
         "hash-map/set iteration yields every entry exactly once in some order (modelled as an arbitrary permutation); keys of one map are pairwise distinct",
         "strsim::jaro_winkler is a pure function of its two arguments (scores enter the ranking model as inputs); scores are non-negative, non-NaN doubles, compared through their bit patterns",
         "exp-preserve-order is not enabled (default features)",
-        "fresh-process runs cover address-space-layout independence only by observation (8 runs per program, ASLR must be enabled on the host: kernel.randomize_va_space != 0)",
+        "fresh-process runs cover address-space-layout independence only by observation (8 runs per program, 14 per message program - a text that differs in 30% of the layouts escapes one such program with probability 0.7^14 + 0.3^14 < 0.01; ASLR must be enabled on the host: kernel.randomize_va_space != 0)",
+        "det.suggest (locals): a name bound in several nested scopes is a candidate once per scope (the model takes the concatenation of the scope maps, as Context::binding's iter_keys does), so a shadowed similar name is listed as often as it is bound",
         "history independence beyond the depth counter (assertion set, import flags, interner) rests on the C02/C07/C18 theorems and on the randomised-history observation here",
     ],
     "trusted_extra": [
